@@ -1,6 +1,7 @@
 // C02: iCommutator, ACommutator, scalar product against their matrix definitions.
 #define VF_EARLY
 #include "bind.hpp"
+#include <SQuIDS/SQuIDS.h>
 using namespace vf;
 using squids::iCommutator; using squids::ACommutator; using squids::SUTrace;
 
@@ -83,6 +84,14 @@ static void check_pair(const Tables& t, const std::vector<double>& a, const std:
   }
 }
 
+// a solver whose evolution the adaptive controller must refuse (minimum step far too coarse for the tolerance): an ordinary,
+// caught failure elsewhere in the program must not change what the algebra returns afterwards
+struct Refuser : squids::SQuIDS {
+  int d;
+  explicit Refuser(int d_) : squids::SQuIDS(1, d_, 1, 0, 0.0), d(d_) { Set_CoherentRhoTerms(true); Set_GSL_step(gsl_odeiv2_step_msadams); Set_rel_error(1e-12); Set_abs_error(1e-12); Set_h(1e-3); Set_h_min(1e-3); for (int k = 0; k < d * d; k++) state[0].rho[0][k] = 0.3 + 0.1 * k; }
+  squids::SU_vector HI(unsigned, unsigned, double t) const override { SU_vector h = mkvec(d, probe(d, 1)); return h * (5.0 + t); }
+};
+
 int main(int argc, char** argv) {
   Args ar = parse(argc, argv); quiet_gsl();
   bool th = ar.thorough();
@@ -117,6 +126,14 @@ int main(int argc, char** argv) {
       if (!(std::fabs(c1[0]) <= tol)) violation("iCommutator:identity-component-nonzero", J().i("d", d).num("c0", c1[0]).done());
       if (!(sym <= tol)) violation("ACommutator:not-symmetric", J().i("d", d).num("defect", sym).done());
       if (!(std::fabs(orth) <= 64 * d * d * d * ref::EPS * sc * maxabs(probe(d, w1)))) violation("Tr(A.i[A,B]):nonzero", J().i("d", d).num("value", orth).done());
+    }
+  }
+  // subnormal and near-overflow operands (products in the ordinary range), before and after a refused solver call on this thread
+  for (int phase = 0; phase < 2; phase++) {
+    if (phase == 1) for (int d = 2; d <= 3; d++) { Refuser r(d); try { r.Evolve(0.7); count("solver_calls_completed"); } catch (const std::exception&) { count("solver_calls_refused"); } check_fp_env("after a refused Evolve"); }
+    for (int d = 2; d <= 6; d++) { Tables t(d);
+      std::vector<std::vector<double>> P = {scaled(probe(d, 0), std::ldexp(1.0, -1040)), scaled(probe(d, 1), std::ldexp(1.0, 1000)), scaled(probe(d, 2), std::ldexp(1.0, -1030)), unit(d, 1, std::ldexp(1.0, -1060)), scaled(probe(d, 1), std::ldexp(1.0, 990))};
+      for (auto& a : P) for (auto& b : P) { double pa = maxabs(a) * maxabs(b); if (!(pa > 1e-200 && pa < 1e200)) continue; check_pair(t, a, b, phase ? "subnormal-operands-after-refused-solver-call" : "subnormal-operands", false); }
     }
   }
   check_early({2});
